@@ -120,6 +120,31 @@ impl Property for C02 {
     }
 
     fn generate(rng: &mut Rng, _tier: Tier) -> Sc {
+        if rng.chance(1, 3000) {
+            // one directory with more than 65535 entries
+            let mut spec = crate::tree::TreeSpec::default();
+            for p in ["t", "t/big", "t/big/sub"] {
+                spec.nodes.push(Node::Dir { path: p.into() });
+            }
+            spec.nodes.push(Node::File { path: "t/big/sub/zz".into(), size: 1, token: 1, atime_ns: None, mtime_ns: None });
+            spec.bulk.push(crate::tree::Bulk { dir: "t/big".into(), count: *rng.pick(&[65_534usize, 65_535, 65_536, 70_000]), kind: crate::tree::BulkKind::File });
+            let find = FindScenario::new(spec, vec![]);
+            let mut sc = Sc {
+                find,
+                follow_flag: rng.pick(&[None, None, Some("-L".to_string())]).clone(),
+                follow_in_expr: false,
+                starts: vec!["t".into()],
+                mindepth: None,
+                maxdepth: None,
+                depth: rng.chance(1, 3),
+                sorted: rng.chance(1, 2),
+                earlier_mindepth: None,
+                earlier_maxdepth: None,
+                note: "huge directory".into(),
+            };
+            sc.render();
+            return sc;
+        }
         if rng.chance(1, 80) {
             // exactly 255, 256, 257 or 512 entries of one starting point cannot be read (and
             // nothing else fails): every one is diagnosed, and the status is non-zero
@@ -400,6 +425,10 @@ impl Property for C02 {
         }
         if sc.starts.len() > 1 {
             rep.probe("several_starting_points");
+        }
+        if sc.note == "huge directory" {
+            rep.probe("directory_with_more_than_65535_entries");
+            rep.want_sample = false;
         }
         if sc.note.starts_with("hundreds") && (rw.diag_owed || rw.unreadable_dirs > 0) {
             rep.probe("hundreds_of_unreadable_entries_under_one_starting_point");
